@@ -1,1 +1,147 @@
-From DV Require Import Prelude.Base Model.Node.
+(* C13 — peer/connection tables and application readiness stay consistent
+   Statements copied from the proof files; each is closed by `exact`. *)
+From DV Require Prelude.Base Model.Ids Proofs.IdsP Model.Node Proofs.NodeD.
+From Coq Require String List Lia Bool Arith ZArith.
+
+Module FromNodeD.
+Import DV.Prelude.Base DV.Model.Node DV.Proofs.NodeD.
+Import Coq.Strings.String.
+Import Coq.Lists.List Coq.micromega.Lia Coq.Bool.Bool Coq.Arith.Arith.
+Import ListNotations.
+Open Scope nat_scope.
+
+(* ---- invariant 1 ---- *)
+Theorem I_ids : forall n0 n, reach n0 n ->
+  NoDup (List.map c_id (n_conns n)) /\
+  (forall c, List.In c (n_conns n) -> c_id c < n_next_cid n) /\
+  NoDup (List.map p_name (n_peers n)) /\
+  List.map p_name (n_peers n) = List.map p_name (n_peers n0).
+Proof. exact NodeD.I_ids. Qed.
+
+(* ---- invariant 2 (C13 / C19: the id tables) ---- *)
+Theorem C13_tables_subset : forall n0 n, reach n0 n ->
+  (forall x, List.In x (n_half_ready n) -> List.In x (List.map c_id (n_conns n))) /\ NoDup (n_half_ready n) /\
+  (forall x, List.In x (n_socket_peers n) -> List.In x (List.map c_id (n_conns n))) /\ NoDup (n_socket_peers n).
+Proof. exact NodeD.C13_tables_subset. Qed.
+
+(* close_conn removes the id from the three tables (no reachability needed) *)
+Theorem C13_closed_nowhere : forall n cid r c, get_conn n cid = Some c ->
+  let n' := fst (close_conn n cid r) in
+  snd (close_conn n cid r) = [OClose cid r] /\
+  ~ List.In cid (List.map c_id (n_conns n')) /\ ~ List.In cid (n_half_ready n') /\ ~ List.In cid (n_socket_peers n').
+Proof. exact NodeD.C13_closed_nowhere. Qed.
+
+Theorem C13_closed_stays_closed : forall n0 n cid r c evs, reach n0 n -> get_conn n cid = Some c ->
+  let n' := fst (run (fst (close_conn n cid r)) evs) in
+  ~ List.In cid (List.map c_id (n_conns n')) /\ ~ List.In cid (n_half_ready n') /\ ~ List.In cid (n_socket_peers n').
+Proof. exact NodeD.C13_closed_stays_closed. Qed.
+
+(* ---- invariant 5 (C13: disconnect reason) ---- *)
+Theorem C13_reason_set : forall n0 n, reach n0 n ->
+  forall p, List.In p (n_peers n) -> p_conn p = None /\ p_lastdisc p <> None -> p_reason p <> None.
+Proof. exact NodeD.C13_reason_set. Qed.
+
+Theorem remove_conn_sets_reason : forall n cid r c p,
+  get_conn n cid = Some c -> find_conn_peer n c = Some p -> p_conn p = Some cid ->
+  exists p', get_peer (remove_conn n cid r) (p_name p) = Some p' /\
+             p_conn p' = None /\ p_lastdisc p' = Some (n_now n) /\ p_reason p' <> None.
+Proof. exact NodeD.remove_conn_sets_reason. Qed.
+
+(* ---- invariant 3 (C13): under cer_guard (no peer named "", clauses i and ii) ---- *)
+Theorem C13_peer_conn_live : forall n0 n, reach_c n0 n ->
+  forall p cid, List.In p (n_peers n) -> p_conn p = Some cid ->
+  exists c, List.In c (n_conns n) /\ c_id c = cid /\ c_node_name c = p_name p.
+Proof. exact NodeD.C13_peer_conn_live. Qed.
+
+(* host identities: empty, or the node name *)
+Theorem C13_peer_conn_live_strong : forall n0 n, reach_c n0 n ->
+  (forall c, List.In c (n_conns n) -> c_host c = ""%string \/ c_host c = c_node_name c) /\
+  (forall p cid, List.In p (n_peers n) -> p_conn p = Some cid ->
+   exists c, List.In c (n_conns n) /\ c_id c = cid /\ c_node_name c = p_name p).
+Proof. exact NodeD.C13_peer_conn_live_strong. Qed.
+
+(* the converse, run level: the peer of a connection that is past the capabilities exchange points to it *)
+Theorem C13_peer_conn_exact : forall n0 n, reach_c n0 n ->
+  forall c p, List.In c (n_conns n) -> List.In p (n_peers n) -> c_node_name c = p_name p ->
+  is_ready_state (c_state c) = true \/ c_state c = SDisconnecting ->
+  p_conn p = Some (c_id c).
+Proof. exact NodeD.C13_peer_conn_exact. Qed.
+
+(* what the election buys: one connection per peer past the capabilities exchange *)
+Theorem C13_one_conn_per_peer : forall n0 n, reach_c n0 n ->
+  forall c1 c2, List.In c1 (n_conns n) -> List.In c2 (n_conns n) ->
+  c_node_name c1 = c_node_name c2 ->
+  is_ready_state (c_state c1) = true \/ c_state c1 = SDisconnecting ->
+  is_ready_state (c_state c2) = true \/ c_state c2 = SDisconnecting ->
+  c1 = c2 /\ c_node_name c1 <> ""%string.
+Proof. exact NodeD.C13_one_conn_per_peer. Qed.
+
+Theorem C13_no_conns_no_peer_conn : forall n0 n, reach_c n0 n -> n_conns n = [] ->
+  n_half_ready n = [] /\ n_socket_peers n = [] /\ (forall p, List.In p (n_peers n) -> p_conn p = None).
+Proof. exact NodeD.C13_no_conns_no_peer_conn. Qed.
+
+(* the election, step level (no reachability needed): once the rivals are closed, connection cid is the
+   only connection that carries the node name `host`; the rivals' ids are in none of the tables *)
+Theorem C13_election_clears_rivals : forall n cid host r,
+  let n' := fst (close_all n (election_rivals n cid host) r) in
+  (forall c', List.In c' (n_conns n') -> c_node_name c' = host -> c_id c' = cid) /\
+  (forall c, get_conn n cid = Some c -> List.In c (n_conns n')) /\
+  (forall c', List.In c' (n_conns n') -> List.In c' (n_conns n)).
+Proof. exact NodeD.C13_election_clears_rivals. Qed.
+
+(* _flag_connection_as_ready makes ready every application one of whose routed peers is connected
+   through this connection (and changes no other application) *)
+Theorem C13_ready_flag_partial : forall n cid i a, List.nth_error (n_apps n) i = Some a ->
+  List.nth_error (n_apps (flag_ready n cid)) i =
+    Some (if List.existsb (fun nm => peer_has_conn n nm cid) (app_peers n i) then set_aready a true else a).
+Proof. exact NodeD.C13_ready_flag_partial. Qed.
+
+(* remove_peer_connection clears the ready flag of exactly the applications none of whose routed
+   peers has a ready connection left (evaluated in the state after the removal) *)
+Theorem C13_ready_flag_removed : forall n cid r c i a, get_conn n cid = Some c ->
+  List.nth_error (n_apps n) i = Some a ->
+  let n' := remove_conn n cid r in
+  List.nth_error (n_apps n') i = Some (if any_peer_ready n' (app_peers n' i) then a else set_aready a false).
+Proof. exact NodeD.C13_ready_flag_removed. Qed.
+
+(* ---- FINDING (C13), clause (i) of the guard is needed: a second CER on the same (inbound)
+   connection.  Peers b, c; an accepted connection sends CER "b" then CER "c": the node name stays b,
+   the host identity becomes c and _assign_peer_connection files the connection under c as well; when
+   the connection closes remove_peer_connection clears only b (found by node name): c.connection
+   dangles.  (The former witness -- a CEA carrying a foreign Origin-Host -- is no longer a
+   counterexample: the repaired receive_cea closes the connection.) ---- *)
+Theorem C13_second_cer_refuted :
+  exists n0 evs, wf_init_g n0 /\
+    let n := fst (run n0 evs) in
+    exists p cid, List.In p (n_peers n) /\ p_conn p = Some cid /\
+                  ~ List.In cid (List.map c_id (n_conns n)) /\ n_conns n = [].
+Proof. exact NodeD.C13_second_cer_refuted. Qed.
+
+(* ---- FINDING (C13), clause (ii) of the guard is needed: a CER read from an established OUTBOUND
+   connection.  The node dials a (connection 0), the exchange completes; a CER with Origin-Host "b" on
+   connection 0 passes the gate (READY): the connection is filed under b; when it closes only a is
+   cleared. ---- *)
+Theorem C13_outbound_cer_refuted :
+  exists n0 evs, wf_init_g n0 /\
+    let n := fst (run n0 evs) in
+    exists p cid, List.In p (n_peers n) /\ p_conn p = Some cid /\
+                  ~ List.In cid (List.map c_id (n_conns n)) /\ n_conns n = [].
+Proof. exact NodeD.C13_outbound_cer_refuted. Qed.
+End FromNodeD.
+
+Print Assumptions FromNodeD.I_ids.
+Print Assumptions FromNodeD.C13_tables_subset.
+Print Assumptions FromNodeD.C13_closed_nowhere.
+Print Assumptions FromNodeD.C13_closed_stays_closed.
+Print Assumptions FromNodeD.C13_reason_set.
+Print Assumptions FromNodeD.remove_conn_sets_reason.
+Print Assumptions FromNodeD.C13_peer_conn_live.
+Print Assumptions FromNodeD.C13_peer_conn_live_strong.
+Print Assumptions FromNodeD.C13_peer_conn_exact.
+Print Assumptions FromNodeD.C13_one_conn_per_peer.
+Print Assumptions FromNodeD.C13_no_conns_no_peer_conn.
+Print Assumptions FromNodeD.C13_election_clears_rivals.
+Print Assumptions FromNodeD.C13_ready_flag_partial.
+Print Assumptions FromNodeD.C13_ready_flag_removed.
+Print Assumptions FromNodeD.C13_second_cer_refuted.
+Print Assumptions FromNodeD.C13_outbound_cer_refuted.
